@@ -38,7 +38,7 @@ KIND_OF = {"query": "QUERY", "header": "HEADERS", "cookie": "COOKIES", "path": "
 def biased_plan(draw):
     """Shapes the statement names explicitly."""
     dialect = draw(st.sampled_from(["3.0", "3.0", "3.1", "2.0"]))
-    shape = draw(st.sampled_from(["no-inputs", "empty-body", "string-header", "string-path", "string-cookie", "ap-only-body", "enum-param", "bounded-param", "form-body", "exclusive-31", "string-header+int-cookie", "two-media-types", "string-path+int-query"]))
+    shape = draw(st.sampled_from(["no-inputs", "empty-body", "string-header", "string-path", "string-cookie", "ap-only-body", "enum-param", "bounded-param", "form-body", "exclusive-31", "string-header+int-cookie", "two-media-types", "string-path+int-query", "mixed-negatability-bodies", "mixed-negatability-bodies"]))
     plan = {"dialect": dialect, "method": "post", "path": "/t", "params": [], "bodies": [], "body_required": True, "schemas": {}, "security": None, "shape": shape}
 
     def param(name, loc, schema, witness, required=True):
@@ -85,6 +85,16 @@ def biased_plan(draw):
             {"media_type": "application/json", "schema": {"type": "integer"}, "witness": 1},
             {"media_type": "application/problem+json", "schema": {"type": "object", "properties": {"a": {"type": "string"}}, "required": ["a"]}, "witness": {"a": "x"}},
         ]
+    elif shape == "mixed-negatability-bodies" and dialect != "2.0":
+        # one alternative can be violated, the other accepts anything: the operation as a whole can be negated
+        bodies = [
+            {"media_type": "application/json", "schema": draw(st.sampled_from([{"type": "integer", "minimum": 1}, {"type": "object", "properties": {"a": {"type": "integer"}}, "required": ["a"]}, {"type": "boolean"}])), "witness": None},
+            {"media_type": draw(st.sampled_from(["text/plain", "application/octet-stream", "application/xml"])), "schema": {}, "witness": "x"},
+        ]
+        bodies[0]["witness"] = {"integer": 1, "object": {"a": 1}, "boolean": True}[bodies[0]["schema"]["type"]]
+        if draw(st.booleans()):
+            bodies.reverse()
+        plan["bodies"] = bodies
     elif shape == "string-path+int-query":
         plan["params"] = [param("id", "path", {"type": "string"}, "a"), param("q", "query", {"type": "integer"}, 1)]
         plan["path"] = "/t/{id}"
@@ -354,6 +364,10 @@ def check_negative(ctx: Ctx, inp) -> None:
                 if cont is None:
                     ctx.disagree(f"negative-component-absent:{loc}", f"{loc} labelled negative but not present", input=inp, case=summary)
                     continue
+                if loc == "query" and not _query_on_the_wire(case):
+                    # "actually present": what the prepared request carries (None items of a list are dropped by the HTTP client)
+                    ctx.disagree("negative-component-absent:query:vanishes-on-the-wire", f"query {dict(cont)!r} is labelled negative but the prepared request has no query string", input=inp, case=summary)
+                    continue
                 raw, why = component_status(plan, case, loc, root, canonical_only=False)
                 declared = {p["name"]: p for p in effective_params(plan) if p["in"] == loc}
                 if raw == "valid":
@@ -388,6 +402,19 @@ def check_negative(ctx: Ctx, inp) -> None:
                     verdict = c01.lenient_valid(p["schema"], c[key], dialect=dialect, root=root, loc=loc)
                     if verdict is False:
                         ctx.disagree("positive-component-invalid:" + c01.classify_invalid(p["schema"], c[key], dialect=dialect, root=root, loc=loc), f"{loc} parameter {p['name']!r}={c[key]!r} labelled positive does not conform", input=inp, case=summary)
+
+
+def _query_on_the_wire(case) -> bool:
+    """Does the request prepared for this case carry a query string at all?"""
+    import requests
+    from urllib.parse import urlsplit
+
+    try:
+        kwargs = case.as_transport_kwargs(base_url="http://127.0.0.1:1")
+        url = requests.Request(**{k: v for k, v in kwargs.items() if k in ("method", "url", "params", "headers", "cookies", "data", "json", "files")}).prepare().url
+    except Exception:  # noqa: BLE001 - not sendable at all: another clause's matter
+        return True
+    return bool(urlsplit(url).query)
 
 
 def hinges_on_draft4_reading_of_exclusive_bounds(schema, value, plan) -> bool:
